@@ -213,20 +213,32 @@ def make_api(it, session: Session):
         vars_ = {kk: vv for kk, vv in it.dict_items(env0)}
         env = Env(vars_, None, m.ns)
         out = DictV()
-        if part == "init":
-            for st in pre:
-                it.exec_stmt(st, env)
-        elif part == "step":
-            c = it.eval(loop.test, env)
-            go = ops.truth(it, c, "loop-test@%d" % loop.lineno)
-            if go:
-                for st in loop.body:
+        try:
+            if part == "names":
+                info = slices.loop_names(pre, loop, post, list(m.ns))
+                for kk, vv in info.items():
+                    it.dict_set(out, "__%s__" % kk, list(vv))
+            elif part == "init":
+                for st in pre:
                     it.exec_stmt(st, env)
-            it.dict_set(out, "__continue__", bool(go))
-        elif part == "exit":
-            it.dict_set(out, "__return__", it.eval(post[0].value, env))
-        else:
-            raise Unsupported("run_loop_part: unknown part %r" % (part,))
+            elif part == "step":
+                c = it.eval(loop.test, env)
+                go = ops.truth(it, c, "loop-test@%d" % loop.lineno)
+                if go:
+                    for st in loop.body:
+                        it.exec_stmt(st, env)
+                it.dict_set(out, "__continue__", bool(go))
+            elif part == "exit":
+                it.dict_set(out, "__return__", it.eval(post[0].value, env))
+            else:
+                raise Unsupported("run_loop_part: unknown part %r" % (part,))
+        except PyRaise as e:
+            cn = getattr(getattr(e, "exc", None), "cls", None)
+            cn = getattr(cn, "qualname", "") or getattr(cn, "name", "")
+            if cn.split(".")[-1] in ("NameError", "AttributeError", "UnboundLocalError", "TypeError", "KeyError"):
+                # the statements need context of the enclosing function that the harness does not supply
+                raise Unsupported("harness does not match the source: loop part `%s` needs context the harness does not supply (%s)" % (part, cn))
+            raise
         for kk, vv in vars_.items():
             it.dict_set(out, kk, vv)
         return out
